@@ -21,6 +21,7 @@ FORMS = {
     "call": ("", "TYPE(x)"),
     "dccall": ("", "dccall(TYPE, x)"),
     "dcfrom": ("", "TYPE.__from__(x, options=Options(OPTS))"),
+    "dcposkw": ("", "TYPE(x, zz=1)"),          # a positional mapping together with a keyword
     "field": ("W = SC('W', Schema, Options(OPTS), a=(ANN,))", "W(a=x)"),
     "dfield": ("W = SC('W', DataClass, Options(OPTS), a=(ANN,))", "W(a=x)"),
     "from": ("W = SC('W', Schema, None, a=(ANN,))", "W.__from__({'a': x}, options=Options(OPTS))"),
